@@ -351,7 +351,11 @@ def gen_garbage(rng, ctx):
         return {'t': 'evil', 'exc': rng.choice(BASE_EXCS + ['sys.exit'])}, True
     if x < 0.22:
         v = rng.choice([42, 0, 3.5, True, None, 'method', 'xmethody', 'plain', ['method', 1], [1, 2], [],
-                        {'$tuple': ['method']}, {'$tuple': [1]}, {}, {'a': 1}])
+                        {'$tuple': ['method']}, {'$tuple': [1]}, {}, {'a': 1},
+                        # tuples of other lengths (only a pickle can carry them): a logging call that formats the
+                        # value with `%` breaks on exactly these
+                        {'$tuple': ['method', 'emit']}, {'$tuple': ['method', 1, 2]}, {'$tuple': [1, 2]},
+                        {'$tuple': []}])
         return {'t': rng.choice(['pickle', 'pickle', 'json', 'jsonstr']) if not isinstance(v, dict) or '$tuple' not in v
                 else 'pickle', 'v': v}, True
     if x < 0.26:
@@ -2030,7 +2034,8 @@ E2E_OUTER = [  # decoded value is truthy and `'method' in data` / `data['method'
     {'t': 'pickle', 'v': 5}, {'t': 'pickle', 'v': 42}, {'t': 'pickle', 'v': 3.5}, {'t': 'pickle', 'v': True},
     {'t': 'json', 'v': True}, {'t': 'json', 'v': 7}, {'t': 'pickle', 'v': 'method'},
     {'t': 'pickle', 'v': 'this is not a method'}, {'t': 'json', 'v': 'xmethody'}, {'t': 'pickle', 'v': ['method', 1]},
-    {'t': 'json', 'v': ['method']}, {'t': 'pickle', 'v': {'$tuple': ['method']}}]
+    {'t': 'json', 'v': ['method']}, {'t': 'pickle', 'v': {'$tuple': ['method']}},
+    {'t': 'pickle', 'v': {'$tuple': ['method', 'emit']}}, {'t': 'pickle', 'v': {'$tuple': ['x', 'method', 3]}}]
 E2E_INERT = [  # undecodable, falsy, or a container without 'method'
     {'t': 'bytes', 'hex': 'ff00fe'}, {'t': 'bytes', 'hex': '80'}, {'t': 'pickle', 'v': 0}, {'t': 'pickle', 'v': None},
     {'t': 'pickle', 'v': []}, {'t': 'pickle', 'v': {}}, {'t': 'pickle', 'v': {'a': 1}}, {'t': 'pickle', 'v': 'plain'},
